@@ -52,6 +52,7 @@ type Contract struct {
 	Inline   bool
 	Pure     bool
 	NoPanic  bool
+	Keeps    []string // Type.flag: flagged objects keep all their fields (and slice elements)
 	Trusted  string
 	Props    []string
 	Strings  string
@@ -71,6 +72,7 @@ type CountSpec struct {
 }
 
 type Pred struct {
+	PkgPath string // package whose names the body is written against
 	Name   string
 	Params []string
 	Expr   ast.Expr
@@ -131,6 +133,7 @@ type ContractSet struct {
 	ByTarget map[string]*Contract // key: pkgpath + "::" + target
 	Types    map[string]*Contract // functype contracts, key pkgpath::TypeName
 	Preds    map[string]*Pred
+	TypeInvs map[string]string // pkgpath.Type -> pred name
 	Frames   []*FrameSpec
 	Lemmas   []*LemmaSpec
 	Files    []string
@@ -139,7 +142,7 @@ type ContractSet struct {
 
 var clauseKeywords = map[string]bool{
 	"requires": true, "ensures": true, "ensures-on-panic": true, "panics-when": true,
-	"nopanic": true, "modifies": true, "loop": true, "assert-at": true, "assume-at": true, "ghost": true,
+	"nopanic": true, "keeps": true, "modifies": true, "loop": true, "assert-at": true, "assume-at": true, "ghost": true,
 	"inline": true, "pure": true, "trusted": true, "property": true, "strings": true,
 	"owned": true, "nosweep": true, "counts": true, "uses": true, "result-func-pure": true, "like-repo-implementations": true,
 }
@@ -198,7 +201,7 @@ func (cs *ContractSet) parseFile(p *packages.Package, f *ast.File, fname string)
 	var items []rawLine
 	for _, l := range lines {
 		w := firstWord(l.text)
-		if w == "func" || w == "functype" || w == "pred" || w == "frame" || w == "lemma" || w == "axiom" || w == "assume-range" || w == "immutable" || w == "maprange-exempt" || w == "global-writer" || clauseKeywords[w] {
+		if w == "func" || w == "functype" || w == "pred" || w == "frame" || w == "lemma" || w == "axiom" || w == "assume-range" || w == "typeinv" || w == "immutable" || w == "maprange-exempt" || w == "global-writer" || clauseKeywords[w] {
 			items = append(items, l)
 		} else if len(items) > 0 {
 			items[len(items)-1].text += " " + l.text
@@ -245,7 +248,7 @@ func (cs *ContractSet) parseFile(p *packages.Package, f *ast.File, fname string)
 				cs.errf(it.pos, "pred %s: %v", name, err)
 				continue
 			}
-			cs.Preds[name] = &Pred{Name: name, Params: params, Expr: e, Text: txt}
+			cs.Preds[name] = &Pred{Name: name, Params: params, Expr: e, Text: txt, PkgPath: p.PkgPath}
 		case "frame":
 			fs := parseFrame(rest)
 			if fs == nil {
@@ -305,6 +308,19 @@ func (cs *ContractSet) parseFile(p *packages.Package, f *ast.File, fname string)
 				}
 			}
 			cs.Immutable = append(cs.Immutable, im)
+		case "typeinv":
+			// typeinv Type pred : every non-nil *Type value the code reads satisfies
+			// pred(value) in the state it is read in (an assumed data-structure
+			// invariant, listed in the evidence)
+			f := strings.Fields(rest)
+			if len(f) != 2 {
+				cs.errf(it.pos, "typeinv Type pred")
+				continue
+			}
+			if cs.TypeInvs == nil {
+				cs.TypeInvs = map[string]string{}
+			}
+			cs.TypeInvs[p.PkgPath+"."+f[0]] = f[1]
 		case "assume-range":
 			// assume-range Type.field lo hi : every value read from the field lies in [lo, hi)
 			f := strings.Fields(rest)
@@ -395,6 +411,9 @@ func (cs *ContractSet) parseClause(c *Contract, kw, rest, pos string) {
 		}
 	case "nopanic":
 		c.NoPanic = true
+	case "keeps":
+		// keeps Type.flag : objects whose flag was set at entry keep every field
+		c.Keeps = append(c.Keeps, strings.Fields(rest)...)
 	case "inline":
 		c.Inline = true
 	case "pure":
